@@ -572,7 +572,7 @@ def float_link(c, kind, out, nu, cu):
             res.update(ok=False, why='float run raised %s' % _outcome_of_exception(e))
             return res
     if c.get('dispatch_out') is not None:
-        runs.append(('dispatch ' + c.get('form', ''), list(c['dispatch_out'])))
+        runs.append(('dispatch ' + c.get('form', '') + (' [%s arrays]' % c['storage'] if c.get('storage') else ''), list(c['dispatch_out'])))
     for name, fl in runs:
         why = None
         if len(fl) != len(sh):
@@ -984,7 +984,8 @@ def gen_dispatch_cases(chk):
         pts = pick2d(rng, gen_points(rng, sp['breaks'], True, True, n_ulp=3), 1 if 'scalar' in form else rng.randint(2, 6))
         nb = sp['ncells'] + p
         c = {'form': form, 'spaces': [{'p': p, 'breaks': qs(sp['breaks']), 'periodic': sp['periodic'], 'uniform': sp['uniform']}],
-             'x': qs([x for _, x in pts]), 'classes': [k for k, _ in pts], 'der': [rng.randint(0, 1)]}
+             'x': qs([x for _, x in pts]), 'classes': [k for k, _ in pts], 'der': [rng.randint(0, 1)],
+             'storage': STORAGES[(i // len(FORMS_1D)) % len(STORAGES)]}
         if form.startswith('BSplines[i]'):
             c['i'] = rng.randrange(sp['ncells'] if sp['periodic'] else nb)
         else:
@@ -1010,8 +1011,36 @@ def gen_dispatch_cases(chk):
                     'x': qs([x for _, x in P1]), 'y': qs([y for _, y in P2]),
                     'classes': [cls2d(a, b) for a, _ in P1 for b, _ in P2],
                     'der': [rng.randint(0, 1), rng.randint(0, 1)], 'ncols': nb2,
+                    'storage': STORAGES[(i // len(FORMS_2D)) % len(STORAGES)],
                     'coeffs': qs(gen_coeffs(rng, nb1 * nb2, True, 'random'))})
     return out
+
+
+STORAGES = ('contiguous', 'every-second', 'column', 'reversed')
+
+
+def _stored(vals, storage, shape=None):
+    """an array holding `vals` (or NaN, shape given) the way a caller may hold it: C-contiguous, every second
+    element of a buffer, a column / Fortran-ordered block of a larger buffer, or a reversed view"""
+    if shape is None:
+        shape = (len(vals),)
+    n = shape[0]
+    if storage == 'every-second':
+        a = np.full((2 * n,) + tuple(shape[1:]), np.nan)[::2]
+    elif storage == 'column':
+        if len(shape) == 1:
+            a = np.full((n, 3), np.nan)[:, 1]
+        else:
+            a = np.full((shape[0], 2, shape[1]), np.nan)[:, 1, :]
+    elif storage == 'reversed':
+        a = np.full(shape, np.nan)[::-1]
+        if len(shape) == 2:
+            a = np.asfortranarray(np.full(shape, np.nan))
+    else:
+        a = np.full(shape, np.nan)
+    if vals is not None:
+        a[...] = vals
+    return a
 
 
 def dispatch_stage(c):
@@ -1037,10 +1066,12 @@ def dispatch_stage(c):
             bases.append(b)
             kns.append([qstr(qlift.frac_of_float(t)) for t in b.knots])
             fams.append('cu' if want_cu else 'nu')
-        xs = np.array([float(qparse(q)) for q in c['x']])
+        storage = c.get('storage', 'contiguous')
+        xs = _stored([float(qparse(q)) for q in c['x']], storage)
+        xs0 = xs.copy()
         der = c['der']
         fam = fams[0]
-        kc = {'knots': kns, 'deg': [s['p'] for s in c['spaces']], 'der': der, 'x': c['x'], 'form': form,
+        kc = {'knots': kns, 'deg': [s['p'] for s in c['spaces']], 'der': der, 'x': c['x'], 'form': form, 'storage': storage,
               'classes': c['classes'], 'flt': True}
         if len(bases) == 1:
             b = bases[0]
@@ -1074,12 +1105,15 @@ def dispatch_stage(c):
                 kc['ep'] = fam + '_eval_spline_1d_vector'
                 kc['dispatch_out'] = [float(t) for t in v]
             else:
-                y = np.empty(len(xs))
+                y = _stored(None, storage, (len(xs),))
                 spl.eval_vector(xs, y, der[0])
                 kc['ep'] = fam + '_eval_spline_1d_vector'
                 kc['dispatch_out'] = [float(t) for t in y]
+            if not np.array_equal(xs, xs0):
+                return {'bad': '%s (%s arrays) modified the array of evaluation points' % (form, storage)}
             return {'kcs': [kc]}
-        ys = np.array([float(qparse(q)) for q in c['y']])
+        ys = _stored([float(qparse(q)) for q in c['y']], storage)
+        ys0 = ys.copy()
         spl = Spline2D(bases[0], bases[1])
         nc = c['ncols']
         fl = [float(qparse(a)) for a in c['coeffs']]
@@ -1094,10 +1128,12 @@ def dispatch_stage(c):
             kc['ep'] = fam + '_eval_spline_2d_cross'
             kc['dispatch_out'] = [float(t) for t in np.asarray(v).ravel()]
         else:
-            z = np.empty((len(xs), len(ys)))
+            z = _stored(None, storage, (len(xs), len(ys)))
             spl.eval_vector(xs, ys, z, der[0], der[1])
             kc['ep'] = fam + '_eval_spline_2d_cross'
             kc['dispatch_out'] = [float(t) for t in z.ravel()]
+        if not (np.array_equal(xs, xs0) and np.array_equal(ys, ys0)):
+            return {'bad': '%s (%s arrays) modified the arrays of evaluation points' % (form, storage)}
         return {'kcs': [kc]}
 
 
